@@ -160,6 +160,9 @@ func (r *run) local(p *replica, a api, e Ev, tx *txState) {
 		if err != nil {
 			r.probe("local-error")
 			after := r.observe(p)
+			if before == nil {
+				before = after
+			}
 			if d := before.diff(after); d != "" {
 				r.fail("plain", "C03.error-has-no-effect", e.Op+"/"+d, "r%d: %s returned error %v but changed %s:\n  before: %s\n  after : %s", p.idx, c.name, err, d, before.brief(), after.brief())
 				r.fail("tx", "C09.rollback-exact", "failed-call-changed-state", "r%d: %s returned error %v but changed %s", p.idx, c.name, err, d)
